@@ -25,6 +25,8 @@ type c19Scenario struct {
 	HTTP    bool   `json:"httpCheck"` // health check by HTTP path instead of TCP connect
 	Events  []int  `json:"events"`    // each event flips server Events[i] % N
 	InitUp  []bool `json:"initUp"`
+	Path    string `json:"path,omitempty"` // health-check path when HTTP (default /health)
+	Sick    bool   `json:"sick,omitempty"` // HTTP only: a server that is down keeps its listener open and answers 500 to everything
 }
 
 var (
@@ -53,6 +55,10 @@ func genC19(t *rapid.T) c19Scenario {
 	}
 	sc.Policy = rapid.SampledFrom([]string{"", "roundRobin", "roundRobin", "random", "first", "leastconn"}).Draw(t, "policy")
 	sc.HTTP = rapid.Bool().Draw(t, "httpCheck")
+	if sc.HTTP {
+		sc.Path = rapid.SampledFrom([]string{"/health", "/health", "/", "/ping"}).Draw(t, "path")
+		sc.Sick = rapid.Bool().Draw(t, "sick")
+	}
 	ne := rapid.IntRange(3, 10).Draw(t, "nEvents")
 	for i := 0; i < ne; i++ {
 		sc.Events = append(sc.Events, rapid.IntRange(0, sc.N-1).Draw(t, "event"))
@@ -64,6 +70,9 @@ func c19Apply(sc c19Scenario, seq int) (string, error) {
 	up := config.UpstreamConfig{Name: "c19up", Policy: sc.Policy}
 	if sc.HTTP {
 		up.HealthCheck = "/health"
+		if sc.Path != "" {
+			up.HealthCheck = sc.Path
+		}
 	}
 	for i := 0; i < sc.N; i++ {
 		up.Servers = append(up.Servers, config.UpstreamServerConfig{Addr: c19Ups[i].URL(), Backup: sc.Backup[i]})
@@ -180,13 +189,21 @@ func execC19(sc c19Scenario) *vstat.Outcome {
 	c19Setup()
 	c19Seq++
 	up := make([]bool, 4)
+	sickMode := sc.HTTP && sc.Sick
+	defer func() {
+		for i := 0; i < 4; i++ {
+			c19Ups[i].setSick(false)
+		}
+	}()
 	for i := 0; i < 4; i++ {
 		want := i < sc.N && sc.InitUp[i]
-		if want {
+		c19Ups[i].setSick(false)
+		if want || sickMode && i < sc.N {
 			if err := c19Ups[i].Start(); err != nil {
 				out.Inconclusive = true
 				return out
 			}
+			c19Ups[i].setSick(!want)
 		} else {
 			c19Ups[i].Stop()
 		}
@@ -256,11 +273,16 @@ func execC19(sc c19Scenario) *vstat.Outcome {
 	judge(fmt.Sprintf("c%d-init", c19Seq))
 	for e, ev := range sc.Events {
 		i := ev % sc.N
-		if up[i] {
+		switch {
+		case sickMode:
+			c19Ups[i].setSick(up[i])
+		case up[i]:
 			c19Ups[i].Stop()
-		} else if err := c19Ups[i].Start(); err != nil {
-			out.Inconclusive = true
-			return out
+		default:
+			if err := c19Ups[i].Start(); err != nil {
+				out.Inconclusive = true
+				return out
+			}
 		}
 		up[i] = !up[i]
 		judge(fmt.Sprintf("c%d-e%d", c19Seq, e))
@@ -279,11 +301,29 @@ func execC19(sc c19Scenario) *vstat.Outcome {
 		out.Class("recovery_after_all_down")
 	}
 	out.Class("policy_" + sc.Policy)
+	if sc.HTTP {
+		out.Class("http_check_" + sc.Path)
+	}
+	if sickMode {
+		out.Class("down_means_listening_but_failing")
+	}
 	return out
 }
 
 func TestC19(t *testing.T) {
 	vstat.Run(t, "C19", "netw", genC19, execC19)
+}
+
+func c19StatusList() string {
+	hu := upstream.Get("c19up")
+	if hu == nil {
+		return "no upstream"
+	}
+	res := ""
+	for _, st := range hu.GetServerStatusList() {
+		res += fmt.Sprintf("%s healthy=%v; ", st.Addr, st.Healthy)
+	}
+	return res
 }
 
 // TestC19Unforced: recovery must happen by itself (no forced check): the
@@ -330,7 +370,7 @@ func TestC19Unforced(t *testing.T) {
 			// nothing is up: 5xx; then the servers come back and traffic must resume by itself
 			r := post(addr, "/c19/unforced/0")
 			if r.Err == "" && r.Code < 500 {
-				out.Violate("C19", "no-server", "no server is up but the request got status %d", r.Code)
+				out.Violate("C19", "no-server", "no server is up but the request got status %d (%s); pike's view: %s", r.Code, trunc(r.Raw, 200), c19StatusList())
 			}
 			_ = c19Ups[0].Start()
 			_ = c19Ups[1].Start()
